@@ -348,6 +348,7 @@ pub fn extract(sc: &Scenario, log: &[LogEntry]) -> Facts {
             LogEv::Confused { pid, reason } => f.confused.push(format!("pid {}: {}", pid, reason)),
             LogEv::HangForever { site } => f.hang = Some(site.clone()),
             LogEv::EventCap => f.event_cap = true,
+            LogEv::Turn { .. } => {}
             LogEv::DrainBegin => f.drain_begin_seq = Some(e.seq),
             LogEv::DrainEnd { alive } => f.alive_after_drain = Some(*alive),
             LogEv::FsSnapshot { phase, root, entries } => f.snapshots.push(Snapshot {
